@@ -2061,6 +2061,10 @@ class Interp:
     if hid is not None:
       return hid(self, args, kwargs, frame)
     if isinstance(ufn, types.FunctionType):
+      lib = axioms._LIB.get(f'{ufn.__module__}.{ufn.__name__}')
+      if lib is not None:
+        axioms._used(f'{ufn.__module__}.{ufn.__name__}')
+        return lib(self, args, kwargs, frame)
       key = func_key(ufn)
       c = self.policy.contracts.get(key)
       if c is not None:
